@@ -7,7 +7,7 @@ use std::borrow::Borrow;
 use crate::hook;
 
 /// Size of the key universe (keys are `0..KEYS`).
-pub const KEYS: u8 = 16;
+pub const KEYS: u8 = 32;
 
 /// Item = key that takes part in Eq/Hash + payload that does not.
 #[derive(Clone, Copy, Debug)]
